@@ -1,6 +1,9 @@
 package controller
 
-import "github.com/openebs/jiva/zzmodel"
+import (
+	"github.com/openebs/jiva/types"
+	"github.com/openebs/jiva/zzmodel"
+)
 
 // Exported entry points for harnesses in other packages (controller/rest).
 
@@ -92,3 +95,35 @@ func ZZSymbolicControllerLite(rf int) *Controller { return zzSymbolicEnvReg(rf, 
 // ZZCheckMembership asserts the membership invariant Inv-C (settled form) on the
 // controller built last.
 func (c *Controller) ZZCheckMembership(tag string) { zzLastEnv.zzCheckInvC(tag, true, false) }
+
+// ZZHealthyController: all RF replicas attached RW over the chain head -> b -> a, no
+// faults drawn from now on; returns the controller.
+func ZZHealthyController(rf int) *Controller {
+	e := zzNewEnv(rf)
+	e.n = rf
+	for i := 0; i < rf; i++ {
+		e.zzAttach(i, types.RW)
+		zzmodel.Replicas[zzAddrs[i]].Chain = []string{"volume-head-002.img", "volume-snap-b.img", "volume-snap-a.img"}
+	}
+	e.fe.state = types.StateUp
+	e.c.RWReplicaCount = rf
+	e.c.ReadOnly = false
+	zzmodel.NoFaults = true
+	e.f.noFail = true
+	e.fe.noFail = true
+	return e.c
+}
+
+// ZZModel: what the replica model at pool index i recorded.
+func ZZModel(i int) *zzmodel.Replica { return zzmodel.Replicas[zzAddrs[i]] }
+
+// ZZModeOf: the mode the controller lists for pool address i ("" = not a member).
+func (c *Controller) ZZModeOf(i int) string {
+	for _, r := range c.replicas {
+		if r.Address == zzAddrs[i] {
+			return string(r.Mode)
+		}
+	}
+	return ""
+}
+func (c *Controller) ZZSize() int64 { return c.size }
